@@ -19,7 +19,7 @@ import subprocess
 import sys
 
 VERIF = os.path.dirname(os.path.dirname(os.path.abspath(__file__)))
-WT = "/tmp/verif-seed-eval-wt"
+WT = os.environ.get("SEED_WT", "/tmp/verif-seed-eval-wt")
 
 
 def sh(cmd, cwd=None, env=None, timeout=1800):
